@@ -12,8 +12,8 @@ M = {
     ],
     "C24": [
         ("benign addition: unitary checker visits lambda-free tuples explicitly", I + "checker/unitary_checker.py",
-         "    def visit_BarrierExpr(self, node: BarrierExpr) -> None:\n        # Barrier is always allowed\n        pass\n",
-         "    def visit_BarrierExpr(self, node: BarrierExpr) -> None:\n        # Barrier is always allowed\n        pass\n\n    def visit_Tuple(self, node: ast.Tuple) -> None:\n        for elt in node.elts:\n            self.visit(elt)\n", None),
+         "    def visit_BarrierExpr(self, node: BarrierExpr) -> None:\n",
+         "    def visit_Tuple(self, node: ast.Tuple) -> None:\n        for elt in node.elts:\n            self.visit(elt)\n\n    def visit_BarrierExpr(self, node: BarrierExpr) -> None:\n", None),
     ],
     "C05": [
         ("benign addition: one more side-effecting op listed", I + "compiler/core.py",
